@@ -8,10 +8,10 @@ Finger(r) ==
   LET s0 == [params |-> r.params, results |-> r.results, use |-> r.use, layout |-> r.layout, place |-> r.place]
       s == Eff(s0) IN
   IF r.gen = "panic" THEN {<<"C13", "generator-panic", r.why, r.id>>}
-  ELSE (IF r.gen = "ok" /\ ~ValidX(s0) THEN {<<"C14", IF s0.place = "typename" THEN "non-function-accepted-as-custom-function" ELSE "invalid-signature-accepted", "", r.id>>} ELSE {})
+  ELSE (IF r.gen = "ok" /\ ~ValidX(s0) THEN {<<"C14", IF s0.place = "typename" THEN "non-function-accepted-as-custom-function" ELSE IF s0.place = "unexported" THEN "inaccessible-custom-function-accepted" ELSE "invalid-signature-accepted", "", r.id>>} ELSE {})
        \cup (IF r.gen # "ok" /\ ValidX(s0) THEN {<<"C14", "valid-signature-rejected", "", r.id>>} ELSE {})
        \* C19: the outcome is exactly what the model predicts when the doc line of the custom function is read the wrong way round
-       \cup (IF r.use = "extend" /\ s0.place # "typename" /\ HasCtxDecl(s0) /\ Valid(s) # Valid(Misread(s0)) /\ (r.gen = "ok") = Valid(Misread(s0))
+       \cup (IF r.use = "extend" /\ s0.place \notin {"typename", "unexported"} /\ HasCtxDecl(s0) /\ Valid(s) # Valid(Misread(s0)) /\ (r.gen = "ok") = Valid(Misread(s0))
              THEN {<<"C19", IF s0.layout \in NotSetting THEN "non-setting-text-applied" ELSE "doc-setting-line-not-applied", "custom-function-" \o s0.layout \o (IF s0.place = "local" THEN "" ELSE IF s0.place = "regex" THEN "-regex-selected" ELSE "-same-named-package"), r.id>>} ELSE {})
        \cup (IF r.gen = "ok" /\ ~r.compiles THEN {<<"C01", "does-not-compile", "signature", r.id>>} ELSE {})
        \cup (IF r.gen = "ok" /\ r.compiles /\ ~r.apiOK THEN {<<"C14", "parameters-not-in-declared-order", "", r.id>>} ELSE {})
